@@ -2,7 +2,10 @@
 // EFFECTS AS PRECONDITIONS: every operation that can write to or remove from the repository takes the ghost value of
 // `dry_run` and REQUIRES it to be false.
 pub struct IdD(pub u64);
+#[derive(Clone, Copy)]
 pub struct PackIdD(pub u64);
+// the packs for which warm-up was requested (and waited for) so far
+pub struct WarmToken { pub ids: Ghost<Set<u64>> }
 pub struct IndexFileD { pub packs: Vec<u64>, pub packs_to_delete: Vec<u64> }
 pub struct RepairIndexOptions { pub read_all: bool }
 pub struct ProgressD { pub _opaque: u64 }
@@ -19,7 +22,10 @@ impl VRepo {
     pub fn progress_counter(&self, s: &str) -> ProgressD { unimplemented!() }
     // warm-up of the packs to read: a request to the storage tier, no write to / removal from the repository (ASSUMED)
     #[verifier::external_body]
-    pub fn vwarm_up_wait(&self, packs: &Vec<(PackIdD, Option<u32>, u32)>) -> RusticResult<()> { unimplemented!() }
+    pub fn vwarm_up_wait(&self, packs: &Vec<(PackIdD, Option<u32>, u32)>, w: &mut WarmToken) -> (r: RusticResult<()>)
+        ensures r is Ok ==> forall|k: int| 0 <= k < packs@.len() ==> final(w).ids@.contains((#[trigger] packs@[k]).0.0),
+            forall|x: u64| old(w).ids@.contains(x) ==> final(w).ids@.contains(x),
+    { unimplemented!() }
 }
 pub struct PackCheckerD { pub _opaque: u64 }
 impl PackCheckerD {
@@ -48,9 +54,11 @@ impl VBe {
 }
 pub struct PackHeaderD { pub _opaque: u64 }
 pub struct IndexPackD { pub _opaque: u64 }
-// PackHeader::from_file: ranged reads of the pack (unit of C08); reads only
+// PackHeader::from_file: ranged reads of the pack (unit of C08); reads only.  PRECONDITION (C16): warm-up was requested for this pack
 #[verifier::external_body]
-pub fn vheader_from_file(be: &VBe, id: PackIdD, size_hint: Option<u32>, packsize: u32) -> RusticResult<PackHeaderD> { unimplemented!() }
+pub fn vheader_from_file(be: &VBe, id: PackIdD, size_hint: Option<u32>, packsize: u32, warm: &WarmToken) -> RusticResult<PackHeaderD>
+    requires warm.ids@.contains(id.0),
+{ unimplemented!() }
 // IndexPack { blobs: header.into_blobs(), id, ..Default::default() }
 #[verifier::external_body]
 pub fn vindexpack_from_header(h: PackHeaderD, id: PackIdD) -> IndexPackD { unimplemented!() }
